@@ -28,6 +28,8 @@ def cases(tier, seed):
     ws = [F(1), F(2), F(1, 3)]
     cs = []
     cs.append(("profile", (1, 1), (F(1, 999983), F(5, 999979))))
+    cs.append(("key-order", None, None))
+    cs.append(("write-in", None, None))
     cs.append(("profile", (4, 4, 5), (F(1, 999983), F(5, 999979), F(2000003, 3000001))))
     maxn = 3 if tier == "quick" else 4
     rng = random.Random(seed)
@@ -104,6 +106,36 @@ def check_case(case):
             # pydantic wraps ValueError in ValidationError (a ValueError subclass)
             if not isinstance(ex, ValueError):
                 viol("duplicate-candidates-wrong-error", repr(ex))
+        return out
+    if case[0] == "key-order":
+        # equal contents whose score dicts were written in a different key order must merge
+        r = (frozenset("A"), frozenset("B"))
+        b1 = Ballot(ranking=r, scores={"A": 1, "B": F(1, 2)}, weight=2)
+        b2 = Ballot(ranking=r, scores={"B": F(1, 2), "A": 1}, weight=3)
+        p = PreferenceProfile(ballots=(b1, b2, Ballot(ranking=r, weight=1)))
+        c = p.condense_ballots()
+        if W_content(c.ballots) != W_content(p.ballots) or len(c.ballots) != 2:
+            viol("condense:key-order", f"condensed to {[(content_key(b), str(b.weight)) for b in c.ballots]}")
+        q = PreferenceProfile(ballots=(Ballot(ranking=r, scores={"A": 1, "B": F(1, 2)}, weight=5), Ballot(ranking=r, weight=1)))
+        if not (p == q) or not (q == p):
+            viol("eq:key-order", "profiles with the same weight per content compare unequal (score dict key order)")
+        return out
+    if case[0] == "write-in":
+        # derived fields always equal what the ballots imply, also with an explicit candidate list and write-ins
+        A_, B_, C_, Z_ = (frozenset(x) for x in "ABCZ")
+        for bl_ in ([Ballot(ranking=(A_, B_), weight=1), Ballot(ranking=(B_, C_), weight=1), Ballot(ranking=(Z_, A_), weight=2)],
+                    [Ballot(ranking=(A_,), weight=1), Ballot(scores={"B": 1, "Z": 2}, weight=1)],
+                    [Ballot(ranking=(A_, B_, C_), weight=1), Ballot(ranking=(Z_,), weight=0), Ballot(ranking=(frozenset("Y"),), weight=1)]):
+            for cl in (("A", "B", "C"), ("A", "B"), ("A",)):
+                p = PreferenceProfile(ballots=tuple(bl_), candidates=cl)
+                cast = set()
+                for b in bl_:
+                    if b.weight > 0:
+                        for s_ in (b.ranking or ()):
+                            cast |= set(s_)
+                        cast |= set(b.scores or {})
+                if set(p.candidates_cast) != cast:
+                    viol("candidates_cast:explicit-candidates", f"candidates={cl}: candidates_cast {p.candidates_cast} != {cast}")
         return out
     _, combo, ws = case
     pool = content_pool()
